@@ -330,6 +330,34 @@ def check(run):
     run.count(npart)
     run.extra['partial_entries_checked'] = npart
 
+    # 2e. the cache of "call as-is" verdicts is keyed by the whole options value: a verdict stored under one value is
+    # found under an equal value and under no unequal one
+    from malt.impl import conversion as _conversion
+    rk2 = random.Random(run.seed * 17 + 5)
+    sample = rk2.sample(range(len(objs)), min(len(objs), 90 if run.tier == 'quick' else 300))
+    nallow = 0
+    for a_i in sample:
+        ca = objs[a_i]
+        oa = CO(recursive=ca[0], user_requested=ca[1], internal_convert_user_code=ca[2], optional_features=ca[4])
+
+        def fresh(x):
+            return x
+        _conversion.cache_allowlisted(fresh, oa)
+        for b_i in sample:
+            cb = objs[b_i]
+            ob = CO(recursive=cb[0], user_requested=cb[1], internal_convert_user_code=cb[2], optional_features=cb[4])
+            hit = _conversion.is_in_allowlist_cache(fresh, ob)
+            nallow += 1
+            if hit != (oa == ob):
+                failures.append(('a "call as-is" verdict cached under one options value is %s under %s options value'
+                                 % (('found', 'an UNEQUAL') if hit else ('not found', 'an equal')), desc(ca), desc(cb)))
+                break
+        else:
+            continue
+        break
+    run.count(nallow)
+    run.extra['allowlist_key_pairs_checked'] = nallow
+
     # 3. model vs implementation, evaluated inside Coq
     corr_bad = None
     if tie_ok:
